@@ -66,7 +66,11 @@ def load_known(pid):
         for e in data.get("findings", []):
             if e.get("property") == pid:
                 ents.append(e)
-    return ents
+    # an entry present in both the merged file and a per-suite file counts once (the later file wins)
+    uniq = {}
+    for e in ents:
+        uniq[e.get("id")] = e
+    return list(uniq.values())
 
 
 # ------------------------------------------------------------------------------- running
